@@ -55,14 +55,14 @@ type Comp struct {
 	Result   string  `json:"result"` // ok | retry-once | error-on-run-N
 	ErrRun   int     `json:"err_run,omitempty"`
 	// Fire: at read index i (before the read) on run number Run, write slot Slot from inside the computation
-	Fire []Fire `json:"fire,omitempty"`
-	PurgeOnRun int `json:"purge_on_run,omitempty"` // call reactive.PurgeCache at the start of this run (0 = never)
-	ExpireMs   int `json:"expire_ms,omitempty"`    // InvalidateAfter(d) on the first run only (0 = none)
+	Fire       []Fire `json:"fire,omitempty"`
+	PurgeOnRun int    `json:"purge_on_run,omitempty"` // call reactive.PurgeCache at the start of this run (0 = never)
+	ExpireMs   int    `json:"expire_ms,omitempty"`    // InvalidateAfter(d) on the first run only (0 = none)
 }
 
 type Fire struct {
 	Run   int  `json:"run"`
-	At    int  `json:"at"`    // read index; len(Reads) = before return
+	At    int  `json:"at"` // read index; len(Reads) = before return
 	Slot  int  `json:"slot"`
 	After bool `json:"after"` // after the read at index At (between capture and AddDependency is "mid")
 	Mid   bool `json:"mid"`
@@ -82,13 +82,17 @@ type Case struct {
 	PreCancel []bool   `json:"pre_cancel"` // rerunner context cancelled before creation
 	Actions   []Action `json:"actions"`
 	Yields    []int    `json:"yields,omitempty"`
-	Spawn     bool     `json:"spawn"` // alwaysSpawnGoroutine
+	Spawn     bool     `json:"spawn"`              // alwaysSpawnGoroutine
+	Foreign   bool     `json:"foreign,omitempty"`  // probe an unrelated AddDependency at quiescence
+	DelayUs   int      `json:"delay_us,omitempty"` // reactive.WriteThenReadDelay for this case
 }
 
 type resInfo struct {
 	id      int
 	added   int32
 	cleaned int32
+	// exitsAtCleanup: how many runs (of any rerunner) had completed when the cleanup ran
+	exitsAtCleanup int64
 }
 
 type slot struct {
@@ -100,12 +104,13 @@ type slot struct {
 }
 
 type Machine struct {
-	c       Case
-	slots   []*slot
-	resMu   sync.Mutex
-	allRes  []*resInfo
-	runners []*runner
-	hits    Hits
+	c          Case
+	slots      []*slot
+	resMu      sync.Mutex
+	allRes     []*resInfo
+	runners    []*runner
+	hits       Hits
+	exitsTotal int64 // completed runs of all rerunners
 }
 
 // Hits counts the interesting interleavings that actually happened.
@@ -120,26 +125,37 @@ type Hits struct {
 	Expire                 int32
 	Overlap                int32
 	ChildSkipped           int32
+	Foreign                int32
 }
 
 type runner struct {
-	m        *Machine
-	idx      int
-	comp     Comp
-	rr       *reactive.Rerunner
-	cancel   context.CancelFunc
-	entries  int32
-	exits    int32
-	runs     int32
-	mu       sync.Mutex
-	lastSeen map[int]int // slot -> version read by the last successful run
-	lastOK   int
-	failed   bool
-	stopped  bool
+	m             *Machine
+	idx           int
+	comp          Comp
+	rr            *reactive.Rerunner
+	cancel        context.CancelFunc
+	entries       int32
+	exits         int32
+	runs          int32
+	mu            sync.Mutex
+	lastSeen      map[int]int // slot -> version read by the last successful run
+	lastOK        int
+	failed        bool
+	stopped       bool
 	entriesAtStop int32
-	childRuns map[int]int
-	violation string
-	preCancelled bool
+	childRuns     map[int]int
+	violation     string
+	preCancelled  bool
+}
+
+// totals: run entries and exits over all rerunners.
+func (m *Machine) totals() (int64, int64) {
+	var e, x int64
+	for _, rn := range m.runners {
+		e += int64(atomic.LoadInt32(&rn.entries))
+		x += int64(atomic.LoadInt32(&rn.exits))
+	}
+	return e, x
 }
 
 func (m *Machine) newRes(s *slot) {
@@ -148,7 +164,10 @@ func (m *Machine) newRes(s *slot) {
 	m.allRes = append(m.allRes, info)
 	m.resMu.Unlock()
 	r := reactive.NewResource()
-	r.Cleanup(func() { atomic.AddInt32(&info.cleaned, 1) })
+	r.Cleanup(func() {
+		atomic.StoreInt64(&info.exitsAtCleanup, atomic.LoadInt64(&m.exitsTotal))
+		atomic.AddInt32(&info.cleaned, 1)
+	})
 	s.res, s.info = r, info
 }
 
@@ -265,6 +284,7 @@ func (rn *runner) compute(ctx context.Context) (interface{}, error) {
 		}
 		rn.mu.Unlock()
 	}
+	defer atomic.AddInt64(&m.exitsTotal, 1)
 	defer atomic.AddInt32(&rn.exits, 1)
 	rn.mu.Lock()
 	if rn.stopped && rn.violation == "" {
@@ -383,16 +403,18 @@ func init() {
 
 // Result is what Run observed.
 type Result struct {
-	Hits     Hits
-	Trace    []string
-	Nontriv  bool
-	Labels   []string
+	Hits    Hits
+	Trace   []string
+	Nontriv bool
+	Labels  []string
 }
 
 // Run executes the case and checks the C04 and C08 oracles. checkCleanup enables the
 // resource-release oracle (C08 b).
 func Run(c Case, checkCleanup bool) (Result, string, error) {
-	reactive.WriteThenReadDelay = 0
+	// the delay a rerunner waits before a re-run (between "invalidated" and "runs again"): a
+	// Stop, write or cancel may land inside it
+	reactive.WriteThenReadDelay = time.Duration(c.DelayUs) * time.Microsecond
 	yieldState.mu.Lock()
 	yieldState.plan, yieldState.hits, yieldState.on = c.Yields, 0, true
 	yieldState.mu.Unlock()
@@ -520,6 +542,67 @@ func Run(c Case, checkCleanup bool) (Result, string, error) {
 	if stale != "" {
 		return res, "stale", errors.New(stale)
 	}
+	// A registration that does not belong to any live computation (AddDependency on a context
+	// without rerunner, e.g. from a request that is not reactive) on a resource that live
+	// computations depend on must leave it alone: its cleanup only runs after the last dependent
+	// computation is gone. Probed at quiescence, in cases without timers (nothing re-runs by
+	// itself), on the current resource of every slot a live rerunner's last run read.
+	if c.Foreign {
+		timers := false
+		for _, comp := range c.Comps {
+			if comp.ExpireMs > 0 {
+				timers = true
+			}
+		}
+		// really quiet: no run entered or left for longer than the re-run delay
+		quiet := false
+		settle := 3*time.Millisecond + 2*time.Duration(c.DelayUs)*time.Microsecond
+		for i := 0; i < 50 && !timers; i++ {
+			e0, x0 := m.totals()
+			time.Sleep(settle)
+			e1, x1 := m.totals()
+			if e0 == e1 && x0 == x1 && e1 == x1 {
+				quiet = true
+				break
+			}
+		}
+		if quiet {
+			cur := current()
+			probed := map[int]bool{}
+			for _, rn := range m.runners {
+				rn.mu.Lock()
+				exempt := rn.stopped || rn.failed || rn.preCancelled || cancelled[rn.idx]
+				seen := rn.lastSeen
+				rn.mu.Unlock()
+				if exempt {
+					continue
+				}
+				for k, v := range seen {
+					if v != cur[k] || probed[k] {
+						continue
+					}
+					probed[k] = true
+					sl := m.slots[k]
+					sl.mu.Lock()
+					r, info := sl.res, sl.info
+					sl.mu.Unlock()
+					if atomic.LoadInt32(&info.cleaned) > 0 {
+						continue // already released earlier (a run that did not read the slot)
+					}
+					exits0 := atomic.LoadInt64(&m.exitsTotal)
+					reactive.AddDependency(context.Background(), r, nil)
+					time.Sleep(2 * time.Millisecond)
+					// The resource may be let go legitimately in this window, but only after some
+					// rerunner completed a new run (the computation that held it was replaced); a
+					// cleanup before any run has completed was caused by the unrelated registration.
+					if cl := atomic.LoadInt32(&info.cleaned); cl > 0 && atomic.LoadInt64(&info.exitsAtCleanup) == exits0 {
+						return res, "early-cleanup", fmt.Errorf("resource %d (slot %d) was cleaned up after an unrelated AddDependency although the current computation of rerunner %d still depends on it (no run has completed in between)", info.id, k, rn.idx)
+					}
+					atomic.AddInt32(&m.hits.Foreign, 1)
+				}
+			}
+		}
+	}
 	// stop everything; no run may start afterwards
 	for _, rn := range m.runners {
 		rn.rr.Stop()
@@ -580,7 +663,7 @@ func Run(c Case, checkCleanup bool) (Result, string, error) {
 	h := m.hits
 	for k, v := range map[string]bool{"write-after-dep-during-run": h.WriteDuringRunAfterDep > 0, "write-between-capture-and-add": h.WriteMid > 0,
 		"shared-slot-write": h.SharedSlotWrite > 0, "stop-during-run": h.StopDuringRun > 0, "cache-reuse": h.CacheReuse > 0,
-		"child-recomputed": h.ChildRecomputed > 0, "purge": h.Purge > 0, "expire": h.Expire > 0, "yields": len(c.Yields) > 0, "child-skipped-some-run": h.ChildSkipped > 0} {
+		"child-recomputed": h.ChildRecomputed > 0, "purge": h.Purge > 0, "expire": h.Expire > 0, "yields": len(c.Yields) > 0, "child-skipped-some-run": h.ChildSkipped > 0, "foreign-registration": h.Foreign > 0} {
 		if v {
 			res.Labels = append(res.Labels, k)
 		}
@@ -689,6 +772,8 @@ func Gen(t *rapid.T, cacheDepth int, hooks bool) Case {
 		c.Comps = append(c.Comps, comp)
 		c.PreCancel = append(c.PreCancel, rapid.IntRange(0, 9).Draw(t, "precancel") == 0)
 	}
+	c.Foreign = rapid.Bool().Draw(t, "foreign")
+	c.DelayUs = rapid.SampledFrom([]int{0, 0, 0, 300, 2000}).Draw(t, "delayus")
 	na := rapid.IntRange(2, 30).Draw(t, "nactions")
 	for i := 0; i < na; i++ {
 		a := Action{Kind: rapid.SampledFrom([]string{"write", "write", "write", "write", "pause", "pause", "rerun", "stop", "cancel"}).Draw(t, "akind")}
